@@ -294,6 +294,20 @@ func runC15Config(rep *base.Report, cli, scratch string, ci int, cfg c15Config, 
 		rep.Violate(base.Violation{Sig: "C15/fault-free-run-failed", What: cfgName + ": " + out0.Stderr, Files: map[string]string{"strace.log": out0.Log}})
 		return false
 	}
+	// the fault-free run over this prior state (for "partial": the state an
+	// interrupted installation leaves) is itself the "later successful run":
+	// complete tree, final modes, nothing temporary left
+	if stray := append(relAll(root0, tempLeft(root0)), foreignLeft(dest0, tree)...); len(stray) > 0 {
+		sort.Strings(stray)
+		rep.Violate(base.Violation{Sig: "C15/successful-run-leaves-temporary-file/" + cfg.Prior, What: fmt.Sprintf("%s: exit 0 but temporary/stray files remain: %v", cfgName, stray), Files: map[string]string{"strace.log": out0.Log}})
+		os.RemoveAll(root0)
+		return false
+	}
+	if probs0, n0 := checkDestStates(dest0, tree, map[string]prevState{}); len(probs0) > 0 || n0 != len(tree) {
+		rep.Violate(base.Violation{Sig: "C15/successful-run-incomplete/" + cfg.Prior, What: fmt.Sprintf("%s: exit 0 but %v (installed %d/%d)", cfgName, probs0, n0, len(tree)), Files: map[string]string{"strace.log": out0.Log}})
+		os.RemoveAll(root0)
+		return false
+	}
 	steps0, _ := installerSteps(out0.Events, dest0)
 	os.RemoveAll(root0)
 	if len(steps0) == 0 {
@@ -381,8 +395,27 @@ func runC15Config(rep *base.Report, cli, scratch string, ci int, cfg c15Config, 
 					Files: map[string]string{"strace.log": out.Log, "case.txt": fmt.Sprintf("config=%s\nargs=%v\ninject=%s\nhit=%s\nproblems=%v\n", cfgName, args, inj, hit, probs)}})
 				return
 			}
-			// a later fault-free run completes the installation
+			// a later fault-free run completes the installation (and, being a
+			// successful run, adds no temporary or stray file of its own; what
+			// the crash itself left behind may stay)
+			strayBefore := map[string]bool{}
+			for _, f := range append(relAll(root, tempLeft(root)), foreignLeft(dest, tree)...) {
+				strayBefore[f] = true
+			}
 			r2 := RunCLI(cli, filepath.Join(root, "proj"), filepath.Join(root, "home"), "022", false, "", "", args...)
+			var strayNew []string
+			for _, f := range append(relAll(root, tempLeft(root)), foreignLeft(dest, tree)...) {
+				if !strayBefore[f] {
+					strayNew = append(strayNew, f)
+				}
+			}
+			if r2.Exit == 0 && len(strayNew) > 0 {
+				sort.Strings(strayNew)
+				rep.Violate(base.Violation{Sig: "C15/crash/rerun-leaves-temporary-file/at-" + pl.name,
+					What:  fmt.Sprintf("%s: after SIGKILL at %s the next (successful) run left new temporary/stray files behind: %v", cfgName, hit, strayNew),
+					Files: map[string]string{"strace.log": out.Log}})
+				return
+			}
 			probs2, new2 := checkDestStates(dest, tree, map[string]prevState{})
 			if r2.Exit != 0 || len(probs2) > 0 || new2 != len(tree) {
 				rep.Violate(base.Violation{Sig: "C15/crash/rerun-does-not-complete/at-" + pl.name,
